@@ -3,7 +3,7 @@ Line-protocol engine `outside` (C14, C15).  Cluster: 0 = A (receiver under test)
 2 = R (relay), 3 = X (reaches A only through R).
 
 ops
-  reset <base> <accept_recv_error> <send_recv_error>          -> `ok 1`
+  reset <base> <accept_recv_error> <send_recv_error> [pref]   -> `ok 1 xr=0`   (pref: A's preferred_ranges: none|relay|peer|other|all)
   pkt <kind> <src> <scope> <mut…>                              -> digest difference at the receiver
       kind : msg | testreq | testrep | close | ctrl (B -> A) | rmsg (X -> R -> A) | fwd (X -> R, receiver R)
       src  : own | other | mynet        (underlay source address the datagram is injected from)
@@ -12,7 +12,7 @@ ops
       mut  : none | replay | flipbody <permille> <bit> | trunc <len> | settype t | setver v | setsub s |
              setres v | setidx <B|R|X|rB|relay|zero|unknown> | ctr <delta>
   recverr <idxsym> <src>                                       -> digest difference at A
-  hsdup <src> <relay|flip>                                     -> digest difference at A: after the relayed tunnel X-A
+  hsdup <src> <relay|flip|direct> [X|B]                        -> digest difference at A: after the relayed tunnel X-A
       completed, the relay hands A the stage-0 handshake packet of X once more in a fresh relay frame
       (byte-identical, or with one bit flipped)
   reply                                                        -> digest difference at A when its tun emits a packet for X
@@ -27,6 +27,7 @@ is not a replay.
 import Nebula.Driver.Common
 import Nebula.Model.Outside
 import Nebula.Spec.Outside
+import Nebula.Model.ViaRemote
 
 namespace Nebula.Driver.Outside
 open Nebula.Driver Nebula.Outside Nebula.Gen
@@ -39,6 +40,8 @@ structure St where
   accept : Bool := true
   sendErr : Bool := true
   ready : Bool := false
+  pref : String := "none"                      -- A's preferred_ranges configuration
+  bRelayTo : Bool := false                     -- A's hostinfo for B already lists R in relayState.relays
   deriving Repr
 
 def lookupS (l : List (Nat × String)) (k : Nat) : Option String := (l.find? (·.1 == k)).map (·.2)
@@ -176,12 +179,12 @@ def noEffectVerdict (impl : String) (allowRecvErrReply : Bool) : String :=
 arrived through a relay (`ViaSender{IsRelayed}`: roaming, handshake retransmits, LearnRemote, handshake
 completion) must never make A record an underlay address for X, and whatever A emits while only traffic
 for X is in flight must be a Message/Relay frame (`1/1`), never a bare packet. -/
-def relayOnlyVerdict (impl : String) (onlyRelayFrames : Bool) : String :=
+def relayOnlyVerdict (impl : String) (onlyRelayFrames : Bool) (noRoam : List String := ["X"]) : String :=
   let toks := impl.splitOn " "
   let get (k : String) : String := ((toks.find? (·.startsWith (k ++ "="))).getD (k ++ "=?")).drop (k.length + 1) |>.toString
   if onlyRelayFrames && get "out" != "-" && !(((get "out").splitOn ",").all (·.startsWith "1/1>")) then
     "bad e2e-packet-left-relay-tunnel"
-  else if get "xr" == "1" || ((get "roam").splitOn ",").contains "X" then "bad relayed-via-recorded-as-remote"
+  else if get "xr" == "1" || ((get "roam").splitOn ",").any (noRoam.contains ·) then "bad relayed-via-recorded-as-remote"
   else "ok"
 
 def andVerdict (a b : String) : String := if a == "ok" then b else a
@@ -242,10 +245,63 @@ def evalPkt (s : St) (kind src scope : String) (mutArgs : List String) (impl : S
       (s', { model := model, verdict := andVerdict verdict (if rx == 0 then relayOnlyVerdict impl false else "ok"), tag := tag })
 
 
+-- concrete underlay addresses of the cluster (harness/relaynet): node i is 192.0.2.(i+1):4242
+def v4 (a b c d : Nat) : Nebula.Net.Addr := { fam := .v4, val := ((a * 256 + b) * 256 + c) * 256 + d }
+def srcAddr (src : String) (sender : Nat) : Nebula.ViaRemote.AddrPort :=
+  if src == "other" then (v4 198 51 100 7, 999)
+  else if src == "mynet" then (v4 10 0 0 77, 4242)
+  else (v4 192 0 2 (sender + 1), 4242)
+def prefList (p : String) : List Nebula.Net.Prefix :=
+  if p == "relay" then [{ addr := v4 192 0 2 3, len := 32 }]
+  else if p == "peer" then [{ addr := v4 192 0 2 2, len := 32 }]
+  else if p == "other" then [{ addr := v4 198 51 100 0, len := 24 }]
+  else if p == "all" then [{ addr := v4 192 0 2 0, len := 24 }, { addr := v4 198 51 100 0, len := 24 }]
+  else []
+def maskLh (s : String) : String := (s.replace " lh=0" " lh=x").replace " lh=1" " lh=x"
+
+/-- `hsdup … B`: B's stage-0 packet (direct tunnel, A responder) arrives again — through the relay in a
+fresh relay frame (`relay` / `flip`) or bare from `src` (`direct`). ErrAlreadySeen → `SetRemoteIfPreferred`
+(model `Nebula.ViaRemote.setRemoteIfPreferred`) → cached response re-sent the way the packet came in. -/
+def evalHsdupB (s : St) (src mode : String) (impl : String) : St × Out :=
+  if !s.live.contains 1 then (s, { model := "no-tunnel", tag := "triv:hsdup-no-tunnel" }) else
+  let relayed := mode != "direct"
+  let curSym := s.curOf 0 1
+  let hostR : Nebula.ViaRemote.HostR :=
+    { remote := some (srcAddr curSym 1), lastRoamRemote := (lookupS s.lastRoam 1).map (srcAddr · 1) }
+  let via : Nebula.ViaRemote.Via := { udp := srcAddr src (if relayed then 2 else 1), isRelayed := relayed }
+  let (hostR', changed) := Nebula.ViaRemote.setRemoteIfPreferred (prefList s.pref) hostR via
+  let moved := changed && hostR'.remote != hostR.remote
+  if relayed then
+    let oh : SymHdr := { type := 1, sub := 1, idx := "relay" }
+    let (h2, l2) := mkLook s 0 true src { type := 0, sub := 0, idx := "zero" } { type := 0, sub := 0, idx := "zero" } 1 none
+    let (h1, l1) := mkLook s 0 false src oh oh 2 (some { type := nebula_TerminalType, peer := 3 })
+    let effs := readOutside false (.mk h1 l1 (some (.mk h2 l2 none)))
+    let reached := effs.any (fun e => match e with | .handshakeIn => true | _ => false)
+    let dup := reached && mode == "relay"
+    let s' := advance s 0 src effs
+    let s' := if dup then { s' with bRelayTo := true } else s'
+    let extra := if dup then ["1/1>" ++ replyNode s' 0 3] else []
+    -- by `relayed_via_keeps_remote` the model never moves B here; `moved` is false
+    let effs' := if dup && moved then effs ++ [Effect.roam 1] else effs
+    let model := render s' 0 2 src effs' (if dup && !s.bRelayTo then ["B"] else []) extra
+    (s', { model := model, verdict := relayOnlyVerdict impl true ["X", "B"],
+           tag := if !reached then "hsdupB:not-reached" else if dup then s!"hsdupB:already-seen-pref-{s.pref}" else "hsdupB:garbled" })
+  else
+    let (h1, l1) := mkLook s 0 false src { type := 0, sub := 0, idx := "zero" } { type := 0, sub := 0, idx := "zero" } 1 none
+    let effs := readOutside false (.mk h1 l1 none)
+    let reached := effs.any (fun e => match e with | .handshakeIn => true | _ => false)
+    let effs' := if reached && moved then effs ++ [Effect.roam 1] else effs
+    let s' := advance s 0 src effs'
+    let node := if src == "own" then "1" else "-1"
+    let extra := if reached then (if moved then ["4/0>" ++ node] else []) ++ ["0/0>" ++ node] else []
+    let model := maskLh (render s' 0 1 src effs' [] extra)
+    (s', { model := model, verdict := "ok",
+           tag := if !reached then "hsdupB:direct-not-reached" else if moved then "hsdupB:direct-moved-to-preferred" else "hsdupB:direct-kept" })
+
 def step (s : St) (args : List String) (impl : String) : St × Out :=
   match args with
-  | ["reset", _, acc, snd] =>
-    ({ accept := acc == "always", sendErr := snd == "always", ready := true },
+  | "reset" :: _ :: acc :: snd :: prefArg =>
+    ({ accept := acc == "always", sendErr := snd == "always", ready := true, pref := prefArg.headD "none" },
      { model := "ok 1 xr=0",
        verdict := if impl == "ok 1 xr=1" then "bad relayed-via-recorded-as-remote handshake-completion" else expect "reset" impl "ok 1 xr=0",
        tag := "triv:reset" })
@@ -254,7 +310,9 @@ def step (s : St) (args : List String) (impl : String) : St × Out :=
     -- a replay is the second injection of the same datagram: the first (authentic) one happens first
     let s0 := if mutArgs == ["replay"] then (evalPkt s kind src scope ["none"] impl).1 else s
     evalPkt s0 kind src scope mutArgs impl
-  | ["hsdup", src, mode] =>
+  | ["hsdup", src, mode, "B"] =>
+    if !s.ready then (s, badOp) else evalHsdupB s src mode impl
+  | "hsdup" :: src :: mode :: _ =>
     if !s.ready then (s, badOp) else
     -- outer level: a fresh relay frame sealed by R (authentic on R's tunnel); inner level: X's stage-0
     -- handshake packet (type Handshake: unauthenticated by design, handled by the handshake manager)
